@@ -15,6 +15,7 @@ use crate::{
 const TIMEOUT_DURATION_ON_ERROR: Duration = Duration::from_millis(510);
 
 #[cfg(actix_net_verif)]
+#[allow(private_interfaces)]
 pub(crate) mod verif {
     include!(concat!(env!("ACTIX_NET_VERIF_DIR"), "/accept_verif.rs"));
 }
